@@ -7,6 +7,7 @@
 package sim
 
 import (
+	"os"
 	"fmt"
 	"hash/fnv"
 	"runtime"
@@ -174,6 +175,7 @@ type Sched struct {
 	KeepLog int
 	ByClass map[Class]int
 	MaxPar  int
+	quiet   atomic.Bool
 	aborted atomic.Bool
 	// Virtual time consumed by idle waits.
 	Idle time.Duration
@@ -235,7 +237,7 @@ func goid() uint64 {
 // no scheduler is installed or the class is disabled for the run.
 func Yield(class Class, label string) {
 	s := cur.Load()
-	if s == nil || s.Cfg.Classes&class == 0 || s.aborted.Load() {
+	if s == nil || s.Cfg.Classes&class == 0 || s.aborted.Load() || s.quiet.Load() {
 		return
 	}
 	p := &parked{gid: goid(), class: class, label: label, ch: make(chan struct{})}
@@ -247,6 +249,20 @@ func Yield(class Class, label string) {
 	s.parked = append(s.parked, p)
 	s.mu.Unlock()
 	<-p.ch
+}
+
+// Quiet runs f with every yield point turned into a no-op. It exists for temporary
+// diagnostic code (reading state that sits behind instrumented locks) that must not
+// change the schedule it is observing; only the currently released goroutine may call it.
+func Quiet(f func()) {
+	s := cur.Load()
+	if s == nil {
+		f()
+		return
+	}
+	s.quiet.Store(true)
+	defer s.quiet.Store(false)
+	f()
 }
 
 // ErrDeadlock is returned by Run when the system is quiescent, unfinished and no timer
@@ -383,6 +399,13 @@ func (s *Sched) Run(done func() bool) error {
 				s.ranks[q.gid] = r
 			}
 			q.rank = r
+		}
+		if len(s.Trace) < s.KeepLog && os.Getenv("VERIF_SCHEDLOG_FULL") != "" {
+			l := "  parked:"
+			for _, q := range s.parked {
+				l += " g" + strconv.Itoa(q.rank) + "/" + strconv.FormatUint(q.gid, 10) + "@" + q.label
+			}
+			s.Trace = append(s.Trace, l)
 		}
 		i := s.pick(n)
 		p := s.parked[i]
